@@ -26,7 +26,8 @@ OneK(m) == << Op("Xgate", <<Q(1, 2)>>, <<m>>), OpH("Xgate", <<Q(3, 4)>>, <<m>>),
 TwoK(pr) == << Op("BSgate", <<a345, APi2>>, pr), Op("S2gate", <<Q(4, 3), a435>>, pr), Op("CXgate", <<Q(1, 2)>>, pr),
                Op("CZgate", <<Q(-1, 2)>>, pr) >>
 AlphabetK == Cat(OneK, Modes, 1) \o Cat(TwoK, Pairs, 1)
-PrefixK == << Op("S2gate", <<Q(4, 3), A0>>, <<0, 1>>), Op("Xgate", <<Q(1, 2)>>, <<0>>), Op("Zgate", <<Q(1, 4)>>, <<1>>) >>
+PrefixK == IF N = 1 THEN << Op("Sgate", <<Q(4, 3), a345>>, <<0>>), Op("Xgate", <<Q(1, 2)>>, <<0>>), Op("Zgate", <<Q(1, 4)>>, <<0>>) >>
+           ELSE << Op("S2gate", <<Q(4, 3), A0>>, <<0, 1>>), Op("Xgate", <<Q(1, 2)>>, <<0>>), Op("Zgate", <<Q(1, 4)>>, <<1>>) >>
 RescaleSeq(s) == [i \in DOMAIN s |-> Rescale(s[i])]
 
 InitH == /\ hist = PrefixK /\ st = ApplySeq(VacuumN(N), PrefixK, K)
